@@ -162,10 +162,18 @@ Proof. intros W H f Hf. apply H. apply W. exact Hf. Qed.
 Ltac solve_frame :=
   let f := fresh "f" in let H := fresh "H" in
   intros f H; destruct f; try discriminate H; reflexivity.
-(* side condition of frame_weaken / eff_weaken on concrete lists *)
-Ltac solve_sub :=
-  let f := fresh "f" in let H := fresh "H" in
-  intros f H; destruct f; first [reflexivity | discriminate H].
+(* side condition of frame_weaken / eff_weaken on concrete lists, decided by computation *)
+Definition all_flds : list fld :=
+  [Fdis; Fmand; Flssl; Flauth; Ftyp; Fraw; Fcert; Fjnode; Fst; Fsec; Ftlsp; Ftlsf; Ftlss; Fsasl; Fsme; Frp; Foh; Fps;
+   Fh; Fid; Ft; Fsq; Fsmq; Fgs; Fgf; Fcr].
+Definition subl (c c' : list fld) : bool := forallb (fun f => fmem f c' || negb (fmem f c)) all_flds.
+Lemma subl_ok c c' : subl c c' = true -> forall f, fmem f c' = false -> fmem f c = false.
+Proof.
+  unfold subl. rewrite forallb_forall. intros H f Hf.
+  assert (I : In f all_flds) by (destruct f; simpl; tauto).
+  specialize (H f I). rewrite Hf in H. simpl in H. destruct (fmem f c); [discriminate|reflexivity].
+Qed.
+Ltac solve_sub := apply subl_ok; vm_compute; reflexivity.
 
 (* all the equalities a frame hypothesis provides (chg must be a concrete list) *)
 Ltac fr_one H t :=
@@ -338,9 +346,9 @@ Proof.
   - apply eff_mk; [solve_frame|reflexivity|sme_side| |same_side..].
     exists [qa_entry w u m s; (WReq, false, true)]. split.
     + simpl. rewrite <- app_assoc. reflexivity.
-    + repeat constructor; cbn; auto.
+    + constructor; [left; cbn; auto|constructor; [left; cbn; auto|constructor]].
   - apply eff_mk; [solve_frame|reflexivity|sme_side| |same_side..].
-    exists [qa_entry w u m s]. split; [reflexivity|]. repeat constructor; cbn; auto.
+    exists [qa_entry w u m s]. split; [reflexivity|]. constructor; [left; cbn; auto|constructor].
 Qed.
 Lemma send_gated_eff w u m s :
   eff [Fsq] (pW (fun x => x = qa_entry w u m s \/ x = (WReq, false, true))) s (send_gated w u m s).
@@ -362,9 +370,9 @@ Proof.
 Qed.
 Lemma timed_add_eff k now s : eff [Ft] (pT (fun x => x = k)) s (timed_add k now s).
 Proof.
-  apply eff_mk; [|reflexivity|sme_side| | | | |]; try (unfold timed_add; break_if; same_side).
-  - unfold timed_add. break_if; [apply frame_refl|solve_frame].
-  - intros k' H. apply In_tk_timed_add in H. exact H.
+  unfold timed_add. break_if; [apply eff_refl|].
+  apply eff_mk; [solve_frame|reflexivity|sme_side|same_side|same_side|same_side| |same_side].
+  intros k' H. unfold tk in H. simpl in H. destruct H as [H|H]; [right; cbn; auto|left; exact H].
 Qed.
 Lemma In_tk_timed_del k k' s : In k' (tk (timed_del k s)) <-> In k' (tk s) /\ k' <> k.
 Proof.
@@ -374,20 +382,20 @@ Proof.
   - intro E. subst. assert (X : tkind_eqb k k = true) by (apply tkind_eqb_eq; reflexivity). rewrite X in B. discriminate.
   - destruct (tkind_eqb k k') eqn:E; [|reflexivity]. apply tkind_eqb_eq in E. congruence.
 Qed.
-Lemma timed_del_eff k s p : eff [Ft] p s (timed_del k s).
+Lemma timed_del_eff p k s : eff [Ft] p s (timed_del k s).
 Proof.
   apply eff_mk; [unfold timed_del; solve_frame|reflexivity|sme_side|same_side|same_side|same_side| |same_side].
   intros k' H. apply In_tk_timed_del in H. left. tauto.
 Qed.
-Lemma timed_reset_all_eff now s p : eff [] p s (timed_reset_all now s).
+Lemma timed_reset_all_eff p now s : eff [] p s (timed_reset_all now s).
 Proof.
-  apply eff_of_frame; try reflexivity; [|sme_side].
+  apply eff_of_frame; try reflexivity.
   intros f H; destruct f; try discriminate H; try reflexivity.
   unfold timed_reset_all, eq_on, tk. simpl. rewrite map_map. reflexivity.
 Qed.
-Lemma timed_set_stamp_eff k now s p : eff [] p s (timed_set_stamp k now s).
+Lemma timed_set_stamp_eff p k now s : eff [] p s (timed_set_stamp k now s).
 Proof.
-  apply eff_of_frame; try reflexivity; [|sme_side].
+  apply eff_of_frame; try reflexivity.
   intros f H; destruct f; try discriminate H; try reflexivity.
   unfold timed_set_stamp, eq_on, tk. simpl. rewrite map_map. apply map_ext. intro a. break_if; reflexivity.
 Qed.
@@ -400,9 +408,10 @@ Proof.
 Qed.
 Lemma h_add_eff k s : eff [Fh] (pH (fun x => x = k)) s (h_add k s).
 Proof.
-  apply eff_mk; [|reflexivity|sme_side| | | | |]; try (unfold h_add; break_if; same_side).
-  - unfold h_add. break_if; [apply frame_refl|solve_frame].
-  - intros k' H. apply In_hk_h_add in H. exact H.
+  unfold h_add. break_if; [apply eff_refl|].
+  apply eff_mk; [solve_frame|reflexivity|sme_side|same_side| |same_side|same_side|same_side].
+  intros k' H. unfold hk in H. simpl in H. rewrite map_app in H. apply in_app_iff in H.
+  destruct H as [H|[H|[]]]; [left; exact H|right; cbn; auto].
 Qed.
 Lemma In_hk_h_del k k' s : In k' (hk (h_del k s)) <-> In k' (hk s) /\ k' <> k.
 Proof.
@@ -412,7 +421,7 @@ Proof.
   - intro E. subst. rewrite hkind_eqb_refl in B. discriminate.
   - destruct (hkind_eqb k k') eqn:E; [|reflexivity]. apply hkind_eqb_eq in E. congruence.
 Qed.
-Lemma h_del_eff k s p : eff [Fh] p s (h_del k s).
+Lemma h_del_eff p k s : eff [Fh] p s (h_del k s).
 Proof.
   apply eff_mk; [unfold h_del; solve_frame|reflexivity|sme_side|same_side| |same_side|same_side|same_side].
   intros k' H. apply In_hk_h_del in H. left. tauto.
@@ -425,17 +434,515 @@ Proof.
 Qed.
 Lemma id_add_eff k s : eff [Fid] (pI (fun x => x = k)) s (id_add k s).
 Proof.
-  apply eff_mk; [|reflexivity|sme_side| | | | |]; try (unfold id_add; break_if; same_side).
-  - unfold id_add. break_if; [apply frame_refl|solve_frame].
-  - intros k' H. apply In_ik_id_add in H. exact H.
+  unfold id_add. break_if; [apply eff_refl|].
+  apply eff_mk; [solve_frame|reflexivity|sme_side|same_side|same_side| |same_side|same_side].
+  intros k' H. unfold ik in H. simpl in H. rewrite map_app in H. apply in_app_iff in H.
+  destruct H as [H|[H|[]]]; [left; exact H|right; cbn; auto].
 Qed.
 Lemma In_ik_id_del k k' s : In k' (ik (id_del k s)) -> In k' (ik s).
 Proof.
   unfold id_del, ik. simpl.
   rewrite (map_filter_proj (@fst idk bool) (fun y => negb (idk_eqb k y))). rewrite filter_In. tauto.
 Qed.
-Lemma id_del_eff k s p : eff [Fid] p s (id_del k s).
+Lemma id_del_eff p k s : eff [Fid] p s (id_del k s).
 Proof.
   apply eff_mk; [unfold id_del; solve_frame|reflexivity|sme_side|same_side|same_side| |same_side|same_side].
   intros k' H. left. eapply In_ik_id_del. exact H.
+Qed.
+
+Lemma prepare_reset_eff p h s : eff [Foh; Frp] p s (prepare_reset h s).
+Proof. unfold prepare_reset. eff_frame. Qed.
+
+Lemma reset_sm_eff p s : eff [Fsme] p s (reset_sm_for_reconnect s).
+Proof. unfold reset_sm_for_reconnect. cbv zeta. break_if; eff_frame. Qed.
+Lemma reset_sm_sme s : sm_enabled (reset_sm_for_reconnect s) = false.
+Proof. unfold reset_sm_for_reconnect. cbv zeta. break_if; reflexivity. Qed.
+
+Lemma drop_below_incl h q x : In x (drop_below h q) -> In x q.
+Proof.
+  induction q as [|y r IH]; simpl; [auto|]. destruct (snd y <? h); [intro H; right; auto|auto].
+Qed.
+Lemma sm_queue_cleanup_eff p h s : eff [Fsmq] p s (sm_queue_cleanup h s).
+Proof.
+  apply eff_mk; [unfold sm_queue_cleanup; solve_frame|reflexivity|sme_side|same_side..|].
+  intros w H. unfold sm_queue_cleanup, sw in *. simpl in H.
+  apply in_map_iff in H as [x [E Hin]]. apply drop_below_incl in Hin. subst.
+  apply (in_map (fun x => fst (fst (fst x)))). exact Hin.
+Qed.
+
+(* conn_disconnect: either nothing, or a crash, or the connection is gone *)
+Lemma conn_disconnect_eff p s : eff [Fcr] p s (fst (conn_disconnect s)).
+Proof.
+  unfold conn_disconnect. destruct (st s) eqn:Est; try apply eff_refl.
+  all: destruct (negb (sm_alloc s)) eqn:Ea; [cbn [fst]; eff_frame|].
+  all: cbv zeta; cbn [fst]; break_if; unfold reset_sm_for_reconnect, upg; cbv zeta; break_if.
+  all: constructor; try same_side.
+  all: try (intros L; exfalso; apply L; reflexivity).
+  all: try (right; reflexivity).
+  all: try (intros _; right; reflexivity).
+  all: intros f H; destruct f; try discriminate H; reflexivity.
+Qed.
+Lemma conn_disconnect_st s : crashed (fst (conn_disconnect s)) = false -> crashed s = false ->
+  st (fst (conn_disconnect s)) = Disconnected.
+Proof.
+  unfold conn_disconnect. destruct (st s) eqn:Est; cbn [fst ret]; [auto| |].
+  all: destruct (negb (sm_alloc s)); cbn [fst]; [cbn; congruence|].
+  all: intros _ _; cbv zeta; break_if; unfold reset_sm_for_reconnect, upg; cbv zeta; break_if; reflexivity.
+Qed.
+
+Definition eWClose : entry -> Prop := fun x => fst (fst x) = WClose \/ fst (fst x) = WReq.
+Lemma xmpp_disconnect_eff now s :
+  eff [Fsq; Ft] (mkP (fun x => fst (fst x) = WClose \/ fst (fst x) = WReq) (fun _ => False) (fun _ => False)
+                     (fun k => k = TDisconnectCleanup)) s (xmpp_disconnect now s).
+Proof.
+  unfold xmpp_disconnect. break_match; try apply eff_refl.
+  all: eapply eff_seq; [apply send_gated_eff|apply timed_add_eff|solve_sub| |]; repeat split; cbn; try tauto.
+  all: intros x [A|A]; subst; cbn; auto.
+Qed.
+
+Lemma conn_open_stream_eff s :
+  eff [Fsq] (pW (fun x => (exists b, fst (fst x) = WHeader b) \/ fst (fst x) = WReq)) s (conn_open_stream s).
+Proof.
+  unfold conn_open_stream. eapply eff_weaken; [|
+    |apply send_gated_eff]; [solve_sub|]. repeat split; cbn; try tauto.
+  intros x [A|A]; subst; cbn; eauto.
+Qed.
+
+Lemma stream_negotiation_success_eff p s : eff [] p s (fst (stream_negotiation_success s)).
+Proof.
+  unfold stream_negotiation_success. break_if; cbn [fst ret]; [apply eff_refl|].
+  break_if; unfold upg; eff_frame.
+Qed.
+
+(* negotiation elements that must never be retained in the SM queue / are policy relevant *)
+Definition is_neg (w : welem) : bool :=
+  match w with WStartTls | WAuth _ | WResponse | WLegacy => true | _ => false end.
+Definition benignE : entry -> Prop := fun x => is_neg (fst (fst x)) = false.
+Definition pB : preds := mkP benignE (fun _ => False) (fun _ => False) (fun _ => False).
+
+Lemma gh_set_gh g s : gh (set_gh g s) = g.
+Proof. reflexivity. Qed.
+
+Definition is_feat (e : elem) : bool := ns_eqb (e_ns e) NsStreams && ename_eqb (e_name e) NmFeatures.
+Lemma note_rx_gh e s :
+  g_feat_seen (gh (note_rx e s)) = g_feat_seen (gh s) || is_feat e /\
+  g_strong (gh (note_rx e s)) =
+    g_strong (gh s) || (is_feat e && negb (g_feat_seen (gh s)) && existsb (is_strong (cert_set s)) (e_mechs e)).
+Proof.
+  unfold note_rx, is_feat. cbv zeta. rewrite gh_set_gh.
+  set (g1 := if ns_eqb (e_ns e) NsStreams && ename_eqb (e_name e) NmFeatures then _ else gh s).
+  match goal with |- g_feat_seen ?g6 = _ /\ _ =>
+    assert (A : g_feat_seen g6 = g_feat_seen g1 /\ g_strong g6 = g_strong g1) by
+      (clearbody g1; repeat break_match; split; reflexivity) end.
+  destruct A as [A1 A2]. rewrite A1, A2. unfold g1. clear.
+  destruct (ns_eqb (e_ns e) NsStreams && ename_eqb (e_name e) NmFeatures); cbn [andb orb].
+  - destruct (g_feat_seen (gh s)) eqn:E; cbn [negb andb]; split; try reflexivity.
+    + cbn. rewrite E. reflexivity.
+    + cbn. rewrite orb_false_r. reflexivity.
+  - rewrite !orb_false_r. split; reflexivity.
+Qed.
+Lemma note_rx_eff p e s : eff [Fgs; Fgf] p s (note_rx e s).
+Proof. unfold note_rx. cbv zeta. eff_frame. Qed.
+
+Lemma note_outs_gh o s : g_strong (gh (note_outs o s)) = g_strong (gh s) /\ g_feat_seen (gh (note_outs o s)) = g_feat_seen (gh s).
+Proof.
+  unfold note_outs. rewrite gh_set_gh. generalize (gh s). induction o as [|x r IH]; intro g; simpl; [auto|].
+  destruct (IH (note_out g x)) as [A B]. rewrite A, B. unfold note_out. repeat break_match; split; reflexivity.
+Qed.
+Lemma note_outs_eff p o s : eff [] p s (note_outs o s).
+Proof.
+  apply eff_of_frame; try reflexivity.
+  intros f H; destruct f; try discriminate H; try reflexivity; cbn [eq_on]; apply note_outs_gh.
+Qed.
+
+Lemma conn_tls_start_eff p s : eff [Fsec; Ftlsp; Ftlsf] p s (fst (fst (conn_tls_start s))).
+Proof. unfold conn_tls_start. cbv zeta. repeat break_if; cbn [fst]; try apply eff_refl; eff_frame. Qed.
+(* the three outcomes *)
+Lemma conn_tls_start_spec s :
+  let r := conn_tls_start s in
+  (snd r = true /\ f_tls_disabled s = false /\ secured (fst (fst r)) = true /\ tls_present (fst (fst r)) = true /\
+     tls_failed (fst (fst r)) = tls_failed s /\ snd (fst r) = [OTlsStart true]) \/
+  (snd r = false /\ fst (fst r) = s /\ snd (fst r) = []) \/
+  (snd r = false /\ f_tls_disabled s = false /\ secured (fst (fst r)) = secured s /\ tls_present (fst (fst r)) = false /\
+     snd (fst r) = [OTlsStart false]).
+Proof.
+  unfold conn_tls_start. cbv zeta. repeat break_if; cbn [fst snd]; auto 10.
+Qed.
+
+Lemma do_bind_eff now b s :
+  eff [Fsq; Fid; Ft; Fcr] (mkP benignE (fun _ => False) (fun k => k = IKBind) (fun k => k = TMissingBind)) s (fst (do_bind now b s)).
+Proof.
+  unfold do_bind. cbv zeta.
+  assert (A : eff [Fid; Ft] (mkP benignE (fun _ => False) (fun k => k = IKBind) (fun k => k = TMissingBind)) s
+                (timed_add TMissingBind now (id_add IKBind s))).
+  { eapply eff_seq; [apply id_add_eff|apply timed_add_eff|solve_sub| |]; repeat split; cbn; tauto. }
+  break_if; cbn [fst ret].
+  - eapply (eff_seq _ _ _ _ [Fcr] pnone); [exact A|eff_frame|solve_sub|apply pimp_refl|apply pimp_none].
+  - eapply eff_seq; [exact A|apply send_gated_eff|solve_sub|apply pimp_refl|].
+    repeat split; cbn; try tauto. intros x [E|E]; subst; reflexivity.
+Qed.
+Lemma session_start_eff now s :
+  eff [Fsq; Fid; Ft] (mkP benignE (fun _ => False) (fun k => k = IKSession) (fun k => k = TMissingSession)) s (session_start now s).
+Proof.
+  unfold session_start.
+  assert (A : eff [Fid; Ft] (mkP benignE (fun _ => False) (fun k => k = IKSession) (fun k => k = TMissingSession)) s
+                (timed_add TMissingSession now (id_add IKSession s))).
+  { eapply eff_seq; [apply id_add_eff|apply timed_add_eff|solve_sub| |]; repeat split; cbn; tauto. }
+  eapply eff_seq; [exact A|apply send_gated_eff|solve_sub|apply pimp_refl|].
+  repeat split; cbn; try tauto. intros x [E|E]; subst; reflexivity.
+Qed.
+Lemma sm_enable_eff s :
+  eff [Fsq; Fh; Fsme] (mkP benignE (fun k => k = HSm) (fun _ => False) (fun _ => False)) s (sm_enable s).
+Proof.
+  unfold sm_enable. cbv zeta.
+  assert (A : eff [Fh; Fsq] (mkP benignE (fun k => k = HSm) (fun _ => False) (fun _ => False)) s
+                (send_gated (WEnable (negb (sm_dont_request (h_add HSm s)))) false true (h_add HSm s))).
+  { eapply eff_seq; [apply h_add_eff|apply send_gated_eff|solve_sub| |]; repeat split; cbn; try tauto.
+    intros x [E|E]; subst; reflexivity. }
+  eapply (eff_seq _ _ _ _ [Fsme] pnone); [exact A|eff_frame|solve_sub|apply pimp_refl|apply pimp_none].
+Qed.
+Lemma sm_enable_sme s : sm_enabled (sm_enable s) = true.
+Proof. reflexivity. Qed.
+
+Ltac eseq A B := eapply eff_seq; [A | B | solve_sub | | ].
+Ltac psolve := repeat split; cbn; try tauto.
+
+Lemma eff_absorb c P Ph Pi Pt s s' :
+  eff c (mkP (fun x => P x \/ In (fst (fst x)) (sw s)) Ph Pi Pt) s s' -> eff c (mkP P Ph Pi Pt) s s'.
+Proof.
+  intros [U L S E [l [Q A]] H I T M]. constructor; try assumption.
+  exists l. split; [exact Q|]. eapply Forall_impl; [|exact A]. cbn. tauto.
+Qed.
+
+Lemma sm_queue_resend_eff s : eff [Fsq; Fsmq] (pW (fun x => fst (fst x) = WReq)) s (sm_queue_resend s).
+Proof.
+  unfold sm_queue_resend.
+  assert (G : forall q a, eff [Fsq] (pW (fun x => fst (fst x) = WReq \/ In (fst (fst x)) (map (fun y : welem * bool * bool * Z => fst (fst (fst y))) q))) a
+            (fold_left (fun a x => send_raw_m (fst (fst (fst x))) (snd (fst (fst x))) (snd (fst x)) a) q a)).
+  { induction q as [|x r IH]; intro a; simpl; [apply eff_refl|].
+    eseq ltac:(apply send_raw_m_eff) ltac:(apply IH); psolve.
+    intros y [E|E]; subst; cbn; auto. }
+  apply eff_absorb.
+  eapply (eff_seq _ _ [Fsmq] pnone); [|apply G|solve_sub|apply pimp_none|apply pimp_refl].
+  apply eff_mk; [solve_frame|reflexivity|sme_side|same_side..|].
+  intros w H. destruct H.
+Qed.
+
+Definition eLegacy (s : state) : entry -> Prop :=
+  fun x => x = (WLegacy, false, negb (sm_enabled s)) \/ benignE x.
+Lemma auth_legacy_eff now s :
+  eff [Fsq; Fid; Ft] (mkP (eLegacy s) (fun _ => False) (fun k => k = IKLegacy)
+                        (fun k => k = TMissingLegacy \/ k = TDisconnectCleanup)) s (auth_legacy now s).
+Proof.
+  unfold auth_legacy. break_if.
+  - eapply eff_weaken; [| |apply xmpp_disconnect_eff]; [solve_sub|]. psolve.
+    intros x [E|E]; right; unfold benignE; rewrite E; reflexivity.
+  - assert (A : eff [Fid; Ft] (mkP (eLegacy s) (fun _ => False) (fun k => k = IKLegacy)
+                        (fun k => k = TMissingLegacy \/ k = TDisconnectCleanup)) s
+                  (timed_add TMissingLegacy now (id_add IKLegacy s))).
+    { eseq ltac:(apply id_add_eff) ltac:(apply timed_add_eff); psolve. }
+    eseq ltac:(exact A) ltac:(apply send_gated_eff); [apply pimp_refl|]. psolve.
+    assert (Es : sm_enabled (timed_add TMissingLegacy now (id_add IKLegacy s)) = sm_enabled s)
+      by (unfold timed_add, id_add; repeat break_if; reflexivity).
+    intros x [X|X]; subst; [left|right; reflexivity].
+    unfold qa_entry. cbn. rewrite Es. reflexivity.
+Qed.
+
+(* ------------------------------------------------------------------ _auth *)
+Definition is_saslh (k : hkind) : bool :=
+  match k with HSaslResult _ | HDigestChallenge | HDigestRspauth | HScramChallenge _ _ => true | _ => false end.
+
+Lemma first_scram_mem l k i n : first_scram i k l = Some n -> mem_mech (MScram n) l = true.
+Proof.
+  revert i. induction k as [|k IH]; intros i; simpl; [discriminate|].
+  destruct (mem_mech (MScram i) l) eqn:E; [intro H; inv H; exact E|apply IH].
+Qed.
+Lemma first_scram_nil k i : first_scram i k [] = None.
+Proof. revert i. induction k as [|k IH]; intro i; simpl; [reflexivity|apply IH]. Qed.
+
+(* the part of _auth after the STARTTLS decision *)
+Inductive body_res (now : Z) (s : state) : state -> emit -> Prop :=
+| BR_disc : f_tls_mandatory s && negb (is_secured s) = true ->
+    body_res now s (fst (conn_disconnect s)) (snd (conn_disconnect s))
+| BR_mech m kh s' : f_tls_mandatory s && negb (is_secured s) = false ->
+    mem_mech m (sasl s) = true -> is_saslh kh = true ->
+    let s1 := set_sasl (del_mech m (sasl s)) (send_gated (WAuth m) false false (h_add kh s)) in
+    (s' = s1 \/ exists n, s' = set_scram_serial n s1) ->
+    body_res now s s' []
+| BR_legacy : f_tls_mandatory s && negb (is_secured s) = false ->
+    typ s = TClient -> f_legacy_auth s = true -> sasl s = sasl s ->
+    body_res now s (auth_legacy now s) []
+| BR_xd : f_tls_mandatory s && negb (is_secured s) = false ->
+    body_res now s (xmpp_disconnect now s) [].
+
+Lemma auth_body_spec f now s : tls_support s = false -> body_res now s (fst (auth f now s)) (snd (auth f now s)).
+Proof.
+  intro H. destruct f; cbn [auth]; rewrite H.
+  all: destruct (f_tls_mandatory s && negb (is_secured s)) eqn:Em; [apply BR_disc; exact Em|].
+  all: repeat break_match; cbn [fst snd ret]; try (apply BR_xd; exact Em); try (apply BR_legacy; auto; fail).
+  all: try (eapply BR_mech; cycle 3; [cbv zeta; left; reflexivity|exact Em|first [assumption|apply andb_true_iff in Heqb; tauto]|reflexivity]; fail).
+  all: eapply BR_mech; cycle 3; [cbv zeta; right; eexists; reflexivity|exact Em|eapply first_scram_mem; eassumption|reflexivity].
+Qed.
+
+Inductive auth_res (now : Z) (s : state) : state -> emit -> Prop :=
+| AR_tls : tls_support s = true -> tlsnew_ok s = true ->
+    auth_res now s (set_tls_support false (send_gated WStartTls false false (h_add HProceedTls s))) []
+| AR_body s0 s' o : (s0 = s /\ tls_support s = false) \/ s0 = set_tls_support false s -> tls_support s0 = false ->
+    body_res now s0 s' o -> auth_res now s s' o.
+
+Lemma auth_S_rec f now s : tls_support s = true -> negb (tlsnew_ok s) = true ->
+  auth (S f) now s = auth f now (set_tls_support false s).
+Proof. intros A B. cbn [auth]. rewrite A, B. reflexivity. Qed.
+Lemma auth_S_tls f now s : tls_support s = true -> negb (tlsnew_ok s) = false ->
+  auth (S f) now s = ret (set_tls_support false (send_gated WStartTls false false (h_add HProceedTls s))).
+Proof. intros A B. cbn [auth]. rewrite A, B. reflexivity. Qed.
+
+Lemma auth_spec now s : auth_res now s (fst (auth 1 now s)) (snd (auth 1 now s)).
+Proof.
+  destruct (tls_support s) eqn:Et.
+  - destruct (negb (tlsnew_ok s)) eqn:En.
+    + rewrite (auth_S_rec _ _ _ Et En).
+      eapply AR_body; [right; reflexivity|reflexivity|]. apply auth_body_spec. reflexivity.
+    + rewrite (auth_S_tls _ _ _ Et En). cbn [fst snd ret]. apply AR_tls; [exact Et|].
+      destruct (tlsnew_ok s); [reflexivity|discriminate].
+  - eapply AR_body; [left; split; [reflexivity|exact Et]|exact Et|]. apply auth_body_spec. exact Et.
+Qed.
+
+Definition pAuth : preds :=
+  mkP (fun _ => True) (fun k => is_saslh k = true \/ k = HProceedTls) (fun k => k = IKLegacy)
+      (fun k => k = TMissingLegacy \/ k = TDisconnectCleanup).
+Definition cAuth : list fld := [Ftlss; Fsasl; Fsq; Fh; Fid; Ft; Fcr].
+
+Lemma mech_step_eff m kh s : is_saslh kh = true ->
+  eff [Fsasl; Fsq; Fh] (mkP (fun x => x = (WAuth m, false, negb (sm_enabled s)) \/ x = (WReq, false, true))
+                          (fun k => k = kh) (fun _ => False) (fun _ => False)) s
+      (set_sasl (del_mech m (sasl s)) (send_gated (WAuth m) false false (h_add kh s))).
+Proof.
+  intro K.
+  assert (A : eff [Fh; Fsq] (mkP (fun x => x = (WAuth m, false, negb (sm_enabled s)) \/ x = (WReq, false, true))
+                          (fun k => k = kh) (fun _ => False) (fun _ => False)) s
+                (send_gated (WAuth m) false false (h_add kh s))).
+  { eseq ltac:(apply h_add_eff) ltac:(apply send_gated_eff); psolve.
+    assert (Es : sm_enabled (h_add kh s) = sm_enabled s) by (unfold h_add; break_if; reflexivity).
+    intros x [X|X]; subst; [left|right; reflexivity]. unfold qa_entry. cbn. rewrite Es. reflexivity. }
+  eapply (eff_seq _ _ _ _ [Fsasl] pnone); [exact A|eff_frame|solve_sub|apply pimp_refl|apply pimp_none].
+Qed.
+
+Lemma body_res_eff now s s' o : body_res now s s' o -> eff cAuth pAuth s s'.
+Proof.
+  intros [Em|m kh s2 Em Hm K s1 Hs|Em _ _ _|Em].
+  - eapply eff_weaken; [| |apply conn_disconnect_eff]; [solve_sub|apply pimp_none].
+  - assert (A : eff cAuth pAuth s s1).
+    { eapply eff_weaken; [| |apply (mech_step_eff m kh s K)]; [solve_sub|]. psolve; intros; subst; auto. }
+    destruct Hs as [Hs|[n Hs]]; subst s2; [exact A|].
+    eapply (eff_seq _ _ _ _ [] pnone); [exact A|eff_frame|solve_sub|apply pimp_refl|apply pimp_none].
+  - eapply eff_weaken; [| |apply auth_legacy_eff]; [solve_sub|]. psolve.
+  - eapply eff_weaken; [| |apply xmpp_disconnect_eff]; [solve_sub|]. psolve.
+Qed.
+
+Lemma auth_res_eff now s s' o : auth_res now s s' o -> eff cAuth pAuth s s' /\ tls_support s' = false.
+Proof.
+  intros [Et En|s0 s2 o2 Hs0 Ht Hb].
+  - split; [|reflexivity].
+    assert (A : eff [Fh; Fsq] pAuth s (send_gated WStartTls false false (h_add HProceedTls s))).
+    { eseq ltac:(apply h_add_eff) ltac:(apply send_gated_eff); psolve; intros; subst; auto. }
+    eapply (eff_seq _ _ _ _ [Ftlss] pnone); [exact A|eff_frame|solve_sub|apply pimp_refl|apply pimp_none].
+  - assert (A : eff [Ftlss] pAuth s s0).
+    { destruct Hs0 as [[E _]|E]; subst s0; [apply eff_refl|eff_frame]. }
+    pose proof (body_res_eff _ _ _ _ Hb) as B. split.
+    + eapply eff_seq; [exact A|exact B|solve_sub|apply pimp_refl|apply pimp_refl].
+    + destruct B as [U _ _ _ _ _ _ _ _].
+      (* tls_support is not touched by the body *)
+      clear - Hb Ht. destruct Hb as [Em|m kh s2 Em Hm K s1 Hs|Em _ _ _|Em].
+      * pose proof (conn_disconnect_eff pnone s0) as [U _ _ _ _ _ _ _ _]. rewrite (U Ftlss eq_refl). exact Ht.
+      * destruct Hs as [Hs|[n Hs]]; subst s2;
+          pose proof (mech_step_eff m kh s0 K) as [U _ _ _ _ _ _ _ _]; pose proof (U Ftlss eq_refl) as X;
+          exact (eq_trans X Ht).
+      * pose proof (auth_legacy_eff now s0) as [U _ _ _ _ _ _ _ _]. rewrite (U Ftlss eq_refl). exact Ht.
+      * pose proof (xmpp_disconnect_eff now s0) as [U _ _ _ _ _ _ _ _]. rewrite (U Ftlss eq_refl). exact Ht.
+Qed.
+
+Lemma auth_eff now s : eff cAuth pAuth s (fst (auth 1 now s)) /\ tls_support (fst (auth 1 now s)) = false.
+Proof. eapply auth_res_eff. apply auth_spec. Qed.
+
+(* ------------------------------------------------------------------ coarse layer: config is never touched, outputs are quiet *)
+Definition pTrue : preds := mkP (fun _ => True) (fun _ => True) (fun _ => True) (fun _ => True).
+Lemma pimp_true p : pimp p pTrue.
+Proof. repeat split; cbn; auto. Qed.
+Definition cAll : list fld :=
+  [Fst; Fsec; Ftlsp; Ftlsf; Ftlss; Fsasl; Fsme; Frp; Foh; Fh; Fid; Ft; Fsq; Fsmq; Fgs; Fgf; Fcr].
+Definition cAllP : list fld := Fps :: cAll.
+Ltac toA L := eapply eff_weaken; [| |first [apply (L pnone)|apply L]]; [solve_sub|apply pimp_true].
+Ltac frameA := eapply (eff_weaken [] _ pnone); [solve_sub|apply pimp_true|eff_frame].
+Lemma effA_trans s s1 s2 : eff cAll pTrue s s1 -> eff cAll pTrue s1 s2 -> eff cAll pTrue s s2.
+Proof. intros A B. eapply eff_seq; [exact A|exact B|solve_sub|apply pimp_refl|apply pimp_refl]. Qed.
+Lemma effP_trans s s1 s2 : eff cAllP pTrue s s1 -> eff cAllP pTrue s1 s2 -> eff cAllP pTrue s s2.
+Proof. intros A B. eapply eff_seq; [exact A|exact B|solve_sub|apply pimp_refl|apply pimp_refl]. Qed.
+Lemma effA_P s s' : eff cAll pTrue s s' -> eff cAllP pTrue s s'.
+Proof. intro A. eapply eff_weaken; [|apply pimp_refl|exact A]. solve_sub. Qed.
+Lemma effA_dis s s' : eff cAllP pTrue s s' -> f_tls_disabled s' = f_tls_disabled s.
+Proof. intros [U _ _ _ _ _ _ _ _]. exact (U Fdis eq_refl). Qed.
+
+(* what may be emitted outside the send phase: no wire data, and no TLS start when TLS is disabled *)
+Definition quiet (d : bool) (o : out) : bool :=
+  match o with OWire _ _ => false | OTlsStart _ => negb d | _ => true end.
+Definition outs_q (d : bool) (l : list out) : Prop := forallb (quiet d) l = true.
+Lemma outs_q_app d a b : outs_q d a -> outs_q d b -> outs_q d (a ++ b).
+Proof. unfold outs_q. intros A B. rewrite forallb_app, A, B. reflexivity. Qed.
+Lemma outs_q_nil d : outs_q d [].
+Proof. reflexivity. Qed.
+
+Definition goodR (s : state) (r : R) : Prop := eff cAll pTrue s (fst r) /\ outs_q (f_tls_disabled s) (snd r).
+Lemma goodR_ret s s' : eff cAll pTrue s s' -> goodR s (ret s').
+Proof. intro A. split; [exact A|reflexivity]. Qed.
+Lemma goodR_bind s r f : goodR s r -> (forall s1, goodR s1 (f s1)) ->
+  goodR s (let '(s1, o1) := r in let '(s2, o2) := f s1 in (s2, o1 ++ o2)).
+Proof.
+  destruct r as [s1 o1]. intros [A B] F. specialize (F s1). destruct (f s1) as [s2 o2]. destruct F as [C D].
+  cbn [fst snd] in *. split; [eapply effA_trans; eassumption|].
+  apply outs_q_app; [exact B|]. rewrite <- (effA_dis s s1 (effA_P _ _ A)). exact D.
+Qed.
+
+Lemma conn_disconnect_good s : goodR s (conn_disconnect s).
+Proof.
+  split; [toA conn_disconnect_eff|].
+  unfold conn_disconnect. destruct (st s); try reflexivity.
+  all: destruct (negb (sm_alloc s)); [reflexivity|]; cbv zeta; cbn [snd]; break_if; reflexivity.
+Qed.
+Lemma sns_good s : goodR s (stream_negotiation_success s).
+Proof.
+  split; [toA stream_negotiation_success_eff|]. unfold stream_negotiation_success. break_if; reflexivity.
+Qed.
+Lemma do_bind_good now b s : goodR s (do_bind now b s).
+Proof. split; [toA do_bind_eff|]. unfold do_bind. cbv zeta. break_if; reflexivity. Qed.
+Lemma auth_res_quiet now s s' o : auth_res now s s' o -> outs_q (f_tls_disabled s) o.
+Proof.
+  intros [Et En|s0 s2 o2 Hs0 Ht Hb]; [reflexivity|].
+  assert (E : f_tls_disabled s = f_tls_disabled s0) by (destruct Hs0 as [[E _]|E]; subst; reflexivity).
+  destruct Hb; try reflexivity. rewrite E. apply conn_disconnect_good.
+Qed.
+Lemma auth_good now s : goodR s (auth 1 now s).
+Proof.
+  split; [destruct (auth_eff now s) as [A _]; eapply eff_weaken; [|apply pimp_true|exact A]; solve_sub|].
+  eapply auth_res_quiet. apply auth_spec.
+Qed.
+Lemma sasl_result_good now e s : goodR s (sasl_result now e s).
+Proof.
+  unfold sasl_result. break_match; try (apply goodR_ret; toA xmpp_disconnect_eff); [apply auth_good|].
+  apply goodR_ret. eapply effA_trans; [toA prepare_reset_eff|toA conn_open_stream_eff].
+Qed.
+Lemma features_sasl_good now e s : goodR s (features_sasl now e s).
+Proof.
+  unfold features_sasl. cbv zeta.
+  set (s3 := if e_sm e then _ else _).
+  assert (A : eff cAll pTrue s s3).
+  { unfold s3. eapply effA_trans; [toA timed_del_eff|]. repeat break_if; frameA. }
+  assert (D : f_tls_disabled s3 = f_tls_disabled s) by (apply effA_dis, effA_P, A).
+  clearbody s3. repeat break_if.
+  - apply goodR_ret. eapply effA_trans; [exact A|]. eapply effA_trans; [|toA h_add_eff].
+    eapply effA_trans; [|toA send_gated_eff]. frameA.
+  - destruct (do_bind_good now true s3) as [B C]. split; [eapply effA_trans; eassumption|]. rewrite <- D. exact C.
+  - apply goodR_ret. eapply effA_trans; [exact A|toA xmpp_disconnect_eff].
+Qed.
+
+Definition cSet : list fld := [Fsec; Ftlsp; Ftlsf; Ftlss; Fsasl; Fsme; Frp; Foh; Fgs; Fgf; Fcr].
+Ltac frameS := eapply (eff_weaken cSet _ pnone); [solve_sub|apply pimp_true|eff_frame].
+
+(* peel the outermost model function / setter off the target state of a coarse effect goal *)
+Ltac peel :=
+  match goal with
+  | |- eff _ _ ?s ?s => apply eff_refl
+  | |- eff _ _ _ (if _ then _ else _) => break_if
+  | |- eff _ _ _ (match _ with _ => _ end) => break_match
+  | |- eff _ _ _ (send_gated _ _ _ _) => eapply effA_trans; [|toA send_gated_eff]
+  | |- eff _ _ _ (send_raw_m _ _ _ _) => eapply effA_trans; [|toA send_raw_m_eff]
+  | |- eff _ _ _ (xmpp_disconnect _ _) => eapply effA_trans; [|toA xmpp_disconnect_eff]
+  | |- eff _ _ _ (conn_open_stream _) => eapply effA_trans; [|toA conn_open_stream_eff]
+  | |- eff _ _ _ (prepare_reset _ _) => eapply effA_trans; [|toA prepare_reset_eff]
+  | |- eff _ _ _ (timed_add _ _ _) => eapply effA_trans; [|toA timed_add_eff]
+  | |- eff _ _ _ (timed_del _ _) => eapply effA_trans; [|toA timed_del_eff]
+  | |- eff _ _ _ (timed_reset_all _ _) => eapply effA_trans; [|toA timed_reset_all_eff]
+  | |- eff _ _ _ (timed_set_stamp _ _ _) => eapply effA_trans; [|toA timed_set_stamp_eff]
+  | |- eff _ _ _ (h_add _ _) => eapply effA_trans; [|toA h_add_eff]
+  | |- eff _ _ _ (h_del _ _) => eapply effA_trans; [|toA h_del_eff]
+  | |- eff _ _ _ (id_add _ _) => eapply effA_trans; [|toA id_add_eff]
+  | |- eff _ _ _ (id_del _ _) => eapply effA_trans; [|toA id_del_eff]
+  | |- eff _ _ _ (sm_queue_resend _) => eapply effA_trans; [|toA sm_queue_resend_eff]
+  | |- eff _ _ _ (sm_queue_cleanup _ _) => eapply effA_trans; [|toA sm_queue_cleanup_eff]
+  | |- eff _ _ _ (sm_enable _) => eapply effA_trans; [|toA sm_enable_eff]
+  | |- eff _ _ _ (session_start _ _) => eapply effA_trans; [|toA session_start_eff]
+  | |- eff _ _ _ (auth_legacy _ _) => eapply effA_trans; [|toA auth_legacy_eff]
+  | |- eff _ _ _ (reset_sm_for_reconnect _) => eapply effA_trans; [|toA reset_sm_eff]
+  | |- eff _ _ _ (note_rx _ _) => eapply effA_trans; [|toA note_rx_eff]
+  | |- eff _ _ _ (upg _ _) => unfold upg
+  | |- eff _ _ _ (fst (conn_disconnect _)) => eapply effA_trans; [|toA conn_disconnect_eff]
+  | |- eff _ _ _ (fst (stream_negotiation_success _)) => eapply effA_trans; [|toA stream_negotiation_success_eff]
+  | |- eff _ _ _ (fst (do_bind _ _ _)) => eapply effA_trans; [|toA do_bind_eff]
+  | |- eff _ _ _ (fst (auth 1 _ _)) => eapply effA_trans; [|apply auth_good]
+  | |- eff _ _ _ (fst (sasl_result _ _ _)) => eapply effA_trans; [|apply sasl_result_good]
+  | |- eff _ _ _ (fst (features_sasl _ _ _)) => eapply effA_trans; [|apply features_sasl_good]
+  | |- eff _ _ _ (fst (fst (conn_tls_start _))) => eapply effA_trans; [|toA conn_tls_start_eff]
+  | |- eff _ _ ?s (?f ?v ?t) => apply (effA_trans s t); [|frameS]
+  end.
+Ltac peels := repeat peel.
+
+(* results written with let '(s1, o) := F in ...: name the components by projections *)
+Lemma pair_eta {A B} (x : A * B) : x = (fst x, snd x).
+Proof. destruct x; reflexivity. Qed.
+Ltac proj_let :=
+  match goal with
+  | |- context [let '(a, b) := ?x in _] => rewrite (pair_eta x)
+  end.
+
+Definition goodT (s : state) (r : state * emit * bool) : Prop :=
+  eff cAll pTrue s (fst (fst r)) /\ outs_q (f_tls_disabled s) (snd (fst r)).
+Lemma goodT_of s (r : R) b : goodR s r -> goodT s (fst r, snd r, b).
+Proof. intro H. exact H. Qed.
+Lemma goodR_pre s s0 r : eff cAll pTrue s s0 -> goodR s0 r -> goodR s r.
+Proof.
+  intros A [B C]. split; [eapply effA_trans; eassumption|]. rewrite <- (effA_dis _ _ (effA_P _ _ A)). exact C.
+Qed.
+Lemma goodT_pre s s0 r : eff cAll pTrue s s0 -> goodT s0 r -> goodT s r.
+Proof.
+  intros A [B C]. split; [eapply effA_trans; eassumption|]. rewrite <- (effA_dis _ _ (effA_P _ _ A)). exact C.
+Qed.
+Lemma goodT_st s s' : eff cAll pTrue s s' -> goodT s (s', [], false).
+Proof. intro A. split; [exact A|reflexivity]. Qed.
+Lemma goodT_st' s s' : eff cAll pTrue s s' -> goodT s (s', [], true).
+Proof. intro A. split; [exact A|reflexivity]. Qed.
+
+Lemma outs_via s s' (r : R) : eff cAllP pTrue s s' -> goodR s' r -> outs_q (f_tls_disabled s) (snd r).
+Proof. intros A [_ B]. rewrite <- (effA_dis _ _ A). exact B. Qed.
+Ltac outs :=
+  first [ reflexivity
+        | eapply outs_via; cycle 1;
+          [ first [apply auth_good | apply do_bind_good | apply sns_good | apply sasl_result_good
+                  | apply features_sasl_good | apply conn_disconnect_good]
+          | apply effA_P; peels ] ].
+Ltac crunch := repeat first [break_if | proj_let; cbv beta iota | break_match].
+Ltac finT := split; cbn [fst snd]; [peels | outs].
+
+Lemma call_handler_good k now e s : goodT s (call_handler k now e s).
+Proof.
+  destruct k; unfold call_handler.
+  - finT.
+  - finT.
+  - cbv zeta. crunch; finT.
+  - destruct (e_name e); try finT.
+    pose proof (conn_tls_start_spec s) as Sp. pose proof (conn_tls_start_eff pnone s) as Ef.
+    destruct (conn_tls_start s) as [[s1 o] ok]. cbn [fst snd] in *.
+    assert (A : eff cAll pTrue s s1) by (eapply eff_weaken; [|apply pimp_true|exact Ef]; solve_sub).
+    assert (Q : outs_q (f_tls_disabled s) o).
+    { destruct Sp as [Sp|[Sp|Sp]]; decompose [and] Sp; subst o; try reflexivity;
+        unfold outs_q; cbn; rewrite H1; reflexivity. }
+    destruct ok; (split; cbn [fst snd]; [eapply effA_trans; [exact A|peels]|exact Q]).
+  - crunch; finT.
+  - crunch; finT.
+  - crunch; finT.
+  - crunch; finT.
+  - crunch; finT.
+  - cbv zeta. crunch; finT.
+  - cbv zeta. crunch; finT.
+  - cbv zeta. crunch; finT.
+  - crunch; finT.
 Qed.
